@@ -145,6 +145,11 @@ fn emit<'tcx>(cx: &Cx<'tcx>) -> J {
                     let mut vo = vec![];
                     vo.push(("name", J::S(v.name.to_string())));
                     vo.push(("idx", J::I(vi.as_u32() as i128)));
+                    if adt.is_enum() {
+                        // the value `Variant as <int>` yields (explicit discriminants evaluated)
+                        let d = adt.discriminant_for_variant(tcx, vi);
+                        vo.push(("discr", J::I(d.val as i128)));
+                    }
                     vo.push(("path", J::S(cx.path(v.def_id))));
                     vo.push(("ctor", J::S(format!("{:?}", v.ctor_kind()))));
                     let mut fs = vec![];
